@@ -65,6 +65,9 @@ CONC_SETS = [
 CONC2_OPTS = ["--memtable-size-bytes", "100000000", "--l0-write-stall-threshold-files", "100000", "--l0-write-stall-threshold-bytes", "100000000000",
               "--sst-cache-bytes", "0", "--sst-target-file-size", "300", "--sst-minimum-file-size", "100", "--sst-target-block-size", "96"]
 CONC2_PARAMS = [(12, 20, 600, 2), (16, 12, 400, 3), (8, 30, 900, 1)]      # scanner threads, rounds, keys, writer threads
+# the same stage with every openat returning 20 ms late: few ssts, many threads, all of them inside one open(2)
+CONC2_DELAYED = [(16, 3, 25, 0), (16, 3, 50, 1), (16, 4, 25, 1), (16, 4, 50, 0)]
+STRACE_DELAY = ["strace", "-f", "-qq", "-o", "/dev/null", "-e", "trace=openat", "-e", "inject=openat:delay_exit=20000"]
 
 # model switches: cf_iter_owns cf_holds_ver cf_cache  (the repaired code, cache off as in BASE_OPTS)
 MODEL_FLAGS = os.environ.get("C07_MODEL_FLAGS", "1 1 0")
@@ -97,7 +100,8 @@ class Session:
     def __init__(self, exe, root, opts, prefix=None, errlog=None):
         self.errfh = open(errlog, "wb") if errlog else subprocess.DEVNULL
         self.p = subprocess.Popen((prefix or []) + [exe, root] + opts, stdin=subprocess.PIPE, stdout=subprocess.PIPE,
-                                  stderr=self.errfh, bufsize=0)
+                                  stderr=self.errfh, bufsize=0, start_new_session=bool(prefix))
+        self.own_group = bool(prefix)      # under strace / valgrind: the store is a child of the prefix, kill the whole group
         self.buf = b""
         self.threads = []
         self.timeout = 600 if prefix else 120
@@ -128,7 +132,7 @@ class Session:
         while True:
             ln = self.readline(self.timeout)
             if ln is None:
-                self.p.kill()
+                self.kill()
                 outs.append("HANG")
                 return outs
             if not ln:
@@ -143,6 +147,14 @@ class Session:
                 continue
             return outs
 
+    def kill(self):
+        if self.own_group:
+            try:
+                os.killpg(self.p.pid, 9)
+            except OSError:
+                pass
+        self.p.kill()
+
     def close(self):
         try:
             self.p.stdin.close()
@@ -151,7 +163,7 @@ class Session:
         try:
             self.p.wait(timeout=self.timeout)
         except subprocess.TimeoutExpired:
-            self.p.kill()
+            self.kill()
             self.p.wait()
         if self.errfh is not subprocess.DEVNULL:
             self.errfh.close()
@@ -793,10 +805,15 @@ def run_conc2(args):
     threads, released together by a barrier R times, each open an unbounded scan and walk it three times
     (backward/forward/backward or forward/backward/forward).  No call may panic or fail, the three walks must be the
     same, and at most the 12 hot keys may be missing"""
-    exe, params, tag = args
+    exe, params, tag = args[:3]
+    delayed = len(args) > 3 and args[3]
     root = fresh_root(tag)
-    res = {"params": list(params), "line": "", "scans": 0, "bad": 0, "what": None, "files": 0, "deep": 0}
-    sess = Session(exe, root, CONC2_OPTS)
+    res = {"params": list(params), "line": "", "scans": 0, "bad": 0, "what": None, "files": 0, "deep": 0, "delayed": bool(delayed)}
+    # delayed: every openat of the process returns 20 ms late (strace fault injection), so that all the scanner threads pile
+    # up inside FileManager::open of the same sst behind ONE open(2); a waiter that is never woken = a scan that never returns
+    sess = Session(exe, root, CONC2_OPTS, prefix=STRACE_DELAY if delayed else None)
+    if delayed:
+        sess.timeout = 25
     try:
         if sess.open_line != "OPEN ok":
             res["what"] = "open failed: " + sess.open_line
@@ -810,8 +827,13 @@ def run_conc2(args):
                 rc = sess.p.wait(timeout=5)
             except Exception:
                 pass
-            res["what"] = ("the store process died, hung or aborted while scans were opening the same ssts concurrently (answer: %s, exit status %s; "
-                           "negative = killed by that signal, -6 = abort, e.g. a panic while panicking)" % (out[:200], rc))
+            if out == "HANG":
+                res["what"] = ("a cursor call never returned: %d scanner threads were opening the same uncached ssts at the same moment%s and the stage did not "
+                               "finish within %d s (the unchanged tree needs about 3 s): a thread waiting inside FileManager::open was never woken"
+                               % (params[0], " (every openat delayed by 20 ms)" if delayed else "", sess.timeout))
+            else:
+                res["what"] = ("the store process died or aborted while scans were opening the same ssts concurrently (answer: %s, exit status %s; "
+                               "negative = killed by that signal, -6 = abort, e.g. a panic while panicking)" % (out[:200], rc))
             res["bad"] = 1
             return res
         f = dict(t.split("=", 1) for t in out.split()[1:] if "=" in t)
@@ -1086,17 +1108,24 @@ def run(chk):
     with multiprocessing.Pool(2) as pool:
         allres = pool.map(run_conc_any, cjobs + c2jobs, chunksize=1)
     cres, c2res = allres[:len(cjobs)], allres[len(cjobs):]
+    if shutil.which("strace"):
+        # alone on the machine: under load the threads no longer arrive inside the same open(2)
+        for i in range(2 if quick else 4):
+            c2res.append(run_conc2((exe, CONC2_DELAYED[i], "c07cd%d" % i, True)))
+            if c2res[-1]["bad"]:
+                break
     conc = {"sessions": len(cres), "scans": sum(c["scans"] for c in cres), "sessions_with_failures": sum(1 for c in cres if c["bad"]),
             "sets": [n for n, _, _ in CONC_SETS],
             "rule": "per session one thread writes R batches of B keys (own key prefix and marker value per batch), S threads issue single puts all the time, C threads open a scan cursor on the batch about to complete (every 8th time: the one completed last) and walk it three times (backward/forward/backward or forward/backward/forward); oracle: every walk shows the batch entirely or not at all, the three walks of one cursor are identical, a batch whose write() had returned before the scan was opened is there"}
     conc["second_stage"] = {"sessions": len(c2res), "scans": sum(c["scans"] for c in c2res), "sessions_with_failures": sum(1 for c in c2res if c["bad"]),
+                            "sessions_with_every_openat_delayed_20ms(strace inject; few ssts, 12-16 threads behind one open(2); a stage that does not finish in 40 s = a cursor call that never returned)": sum(1 for c in c2res if c["delayed"]),
                             "ssts_in_the_tree(min)": min([c["files"] for c in c2res] or [0]), "ssts_below_L0(min)": min([c["deep"] for c in c2res] or [0]),
                             "params(scanner threads, rounds, keys, writer threads)": [list(p) for p in CONC2_PARAMS],
                             "rule": "K keys in many small ssts compacted below L0, sst cache off (every scan opens the files lazily through the file manager), 12 hot keys also in the live memtable and overwritten/deleted by W writer threads all the time; T scanner threads released together by a barrier, R times, each open an unbounded scan and walk it backward/forward/backward or forward/backward/forward; oracle: no call panics or returns an error, the process survives, the three walks of one cursor are identical, at most the 12 hot keys are missing"}
     c2reported = 0
     for c in c2res:
         if c["bad"] and c2reported < 2:
-            chk.violation("c07_conc2_%d.json" % c2reported, {"kind": "property", "what": c["what"], "conc2": {"params": c["params"]},
+            chk.violation("c07_conc2_%d.json" % c2reported, {"kind": "property", "what": c["what"], "conc2": {"params": c["params"], "delayed": c["delayed"]},
                                                              "line": c["line"], "replay_cmd": "./bin/check C07 --replay <this file>  (re-runs the stage up to 10 times)"})
             c2reported += 1
     creported = 0
@@ -1160,7 +1189,7 @@ def replay(path):
         chk = vlib.Check("C07", "quick", 1)
         exe, mx = build(chk)
         for i in range(10):
-            r = run_conc2((exe, obj["conc2"]["params"], "c07rcc%d" % i))
+            r = run_conc2((exe, obj["conc2"]["params"], "c07rcc%d" % i, obj["conc2"].get("delayed", False)))
             print("attempt %d: %s" % (i, r["line"]))
             if r["bad"]:
                 print("fails now:", r["what"])
